@@ -246,6 +246,10 @@ func (e *Engine) verifyFunc(pkg *packages.Package, decl *ast.FuncDecl, profile s
 		}
 	}()
 	fc.prepare()
+	if e.curLocals == nil {
+		e.curLocals = map[string][]localEntry{}
+	}
+	e.curLocals[fc.baseName()] = fc.localTable()
 	st := fc.entryState()
 	fc.entry = st.clone()
 	fc.cover(st, "entry", decl.Body.Lbrace)
@@ -333,7 +337,20 @@ func (fc *FuncCtx) prepare() {
 					if ls.Header != "" {
 						h := loopHeader(fc.e.fset, node)
 						if !strings.Contains(h, ls.Header) {
-							panic(unsupported(fmt.Sprintf("contract-anchor: loop %d header %q does not match source %q", n, ls.Header, h)))
+							// the header text is a drift guard; a header that differs only by renamed locals is accepted
+							hh := h
+							base := fc.e.baseLocals[fc.baseName()]
+							cur := fc.localTable()
+							if len(base) == len(cur) {
+								for i := range base {
+									if base[i].Name != cur[i].Name && base[i].Type == cur[i].Type {
+										hh = replaceIdent(hh, cur[i].Name, base[i].Name)
+									}
+								}
+							}
+							if !strings.Contains(hh, ls.Header) {
+								panic(unsupported(fmt.Sprintf("contract-anchor: loop %d header %q does not match source %q", n, ls.Header, h)))
+							}
 						}
 					}
 				}
@@ -609,6 +626,12 @@ func (fc *FuncCtx) specEnv(st *State, old *State, pos token.Pos, names map[strin
 			return nil, false
 		}
 		_, obj := scope.LookupParent(name, pos)
+		if obj == nil {
+			// a local variable that was merely renamed since the contracts were written (see localTable)
+			if alias := fc.renamedLocal(name); alias != "" {
+				_, obj = scope.LookupParent(alias, pos)
+			}
+		}
 		if obj == nil {
 			return nil, false
 		}
@@ -1496,4 +1519,98 @@ func unrelatedPointees(t, u types.Type) bool {
 		return false
 	}
 	return !contains(st, pu.Elem(), 0) && !contains(su, pt.Elem(), 0)
+}
+
+// ---------------------------------------------------------------- tolerance for renamed locals
+//
+// Contracts name local variables of the function (loop invariants have to).  A pure rename of a local is a
+// harmless edit and must not raise an alarm: the table of locals of every function under contract (name and
+// type in declaration order) is recorded with the baseline; when a contract mentions a name that no longer
+// exists, and the function still declares the same number of locals with the same types in the same order,
+// the variable now standing at the recorded position of the old name is taken.  This is sound: which program
+// variable an auxiliary invariant talks about does not matter as long as the obligations are discharged; the
+// property clauses themselves speak about parameters, results, the heap and ghost state.
+
+type localEntry struct {
+	Name string `json:"name"`
+	Type string `json:"type"`
+}
+
+func (fc *FuncCtx) localTable() []localEntry {
+	var out []localEntry
+	seen := map[types.Object]bool{}
+	add := func(v *types.Var) {
+		if v == nil || seen[v] || v.Name() == "_" || v.Name() == "" {
+			return
+		}
+		seen[v] = true
+		out = append(out, localEntry{v.Name(), types.TypeString(v.Type(), func(p *types.Package) string { return p.Name() })})
+	}
+	if r := fc.sig.Recv(); r != nil {
+		add(r)
+	}
+	for i := 0; i < fc.sig.Params().Len(); i++ {
+		add(fc.sig.Params().At(i))
+	}
+	for i := 0; i < fc.sig.Results().Len(); i++ {
+		add(fc.sig.Results().At(i))
+	}
+	ast.Inspect(fc.decl.Body, func(n ast.Node) bool {
+		if id, ok := n.(*ast.Ident); ok {
+			if v, ok := fc.info.Defs[id].(*types.Var); ok && !v.IsField() {
+				add(v)
+			}
+		}
+		return true
+	})
+	return out
+}
+
+func (fc *FuncCtx) renamedLocal(name string) string {
+	base := fc.e.baseLocals[fc.baseName()]
+	if len(base) == 0 {
+		return ""
+	}
+	cur := fc.localTable()
+	if len(cur) != len(base) {
+		return ""
+	}
+	baseNames := map[string]bool{}
+	for i := range base {
+		baseNames[base[i].Name] = true
+		if base[i].Type != cur[i].Type {
+			return ""
+		}
+	}
+	for i := range base {
+		if base[i].Name == name && cur[i].Name != name && !baseNames[cur[i].Name] {
+			fc.e.note("contract name " + name + " in " + fc.baseName() + " resolved to the renamed local " + cur[i].Name)
+			return cur[i].Name
+		}
+	}
+	return ""
+}
+
+// baseName is the function name without the profile suffix.
+func (fc *FuncCtx) baseName() string {
+	if k := strings.Index(fc.name, "["); k > 0 {
+		return fc.name[:k]
+	}
+	return fc.name
+}
+
+// replaceIdent replaces whole-word occurrences of an identifier.
+func replaceIdent(s, from, to string) string {
+	var b strings.Builder
+	isId := func(c byte) bool { return c == '_' || c >= '0' && c <= '9' || c >= 'a' && c <= 'z' || c >= 'A' && c <= 'Z' }
+	for i := 0; i < len(s); {
+		if strings.HasPrefix(s[i:], from) && (i == 0 || !isId(s[i-1])) && (i+len(from) == len(s) || !isId(s[i+len(from)])) {
+			b.WriteString(to)
+			i += len(from)
+			continue
+		}
+		b.WriteByte(s[i])
+		i++
+	}
+	return b.String()
 }
